@@ -247,7 +247,7 @@ def step (st : State) (w : List String) : State × String :=
       let cv := cryptoVerify stdVerify b64Decode limits vkeyTag false orc vk vs set
       (st, s!"own={verdictStr own} cv={if ownAlg vk.alg then verdictStr cv else "lib:reject"}")
     | _, _, _, _ => (st, "bad-op")
-  | ["vfy", "msg", z, ks, ss, rr, a, o, c, sw, p, hx, tg] =>
+  | ["vfy", "msg", z, ks, ss, rr, a, o, c, sw, p, hx, tg, gv] =>
     let keysO : Option (List VKey) := if (ks.drop 2).toString == "-" then some [] else ((ks.drop 2).toString.splitOn ";").mapM parseVKey
     let sigsO : Option (List VSig) := if (ss.drop 2).toString == "-" then some [] else ((ss.drop 2).toString.splitOn ";").mapM parseVSig
     match hexBytes (z.drop 2).toString, keysO, sigsO,
@@ -271,7 +271,15 @@ def step (st : State) (w : List String) : State × String :=
       let inPeriod := fun (sg : VSig) => (listAt pers (indexOf sigs sg)) == some "t"
       let oneSig := verifyOneSig cv inPeriod supportedAlg vkeyTag keys
       let m : VMsg := { answer := recs.take nAns, ns := recs.drop nAns, sigs := sigs }
-      (st, s!"ok={boolStr (verifyRRSIG oneSig keys.length zone m)}")
+      let gov : Gov := match ((gv.drop 2).toString.splitOn ",").map String.toNat? with
+        | [some a, some b, some c] => { maxCand := a, maxSet := b, budget := c }
+        | _ => { maxCand := 0, maxSet := 0, budget := 0 }
+      let wr := verifyRRSIGWork cv inPeriod supportedAlg vkeyTag keys gov zone m
+      let wstr := match wr.1 with
+        | WRes.ok => "ok"
+        | WRes.fail => "fail"
+        | WRes.work => "work"
+      (st, s!"ok={boolStr (verifyRRSIG oneSig keys.length zone m)} w={wstr}:{wr.2}")
     | _, _, _, _, _ => (st, "bad-op")
   | "vfy" :: _ => (st, "bad-op")
   | ["rsa", "parse", pk] =>
